@@ -175,6 +175,8 @@ func (ord *Order) ValidateWithContext(ctx context.Context) error {
 			validation.Required,
 			cal.DateNotZero(),
 		),
+		validation.Field(&ord.OperationDate),
+		validation.Field(&ord.ValueDate),
 		validation.Field(&ord.Currency,
 			validation.Required,
 			currency.CanConvertInto(ord.ExchangeRates, r.GetCurrency()),
@@ -182,6 +184,8 @@ func (ord *Order) ValidateWithContext(ctx context.Context) error {
 		validation.Field(&ord.ExchangeRates),
 		validation.Field(&ord.Contracts),
 		validation.Field(&ord.Preceding),
+		validation.Field(&ord.Identities),
+		validation.Field(&ord.Period),
 		validation.Field(&ord.Tax),
 		validation.Field(&ord.Supplier, validation.Required),
 		validation.Field(&ord.Customer),
